@@ -184,8 +184,8 @@ RegistryT<ArgsT<TG_, TSL_, TRL_, NCC_, 0, 0, TRO_ HFSM2_IF_SERIALIZATION(, NSB_)
 	if (HFSM2_CHECKED(stateId < STATE_COUNT)) {
 		const Parent parent = stateParents[stateId];
 
-		HFSM2_ASSERT(parent.forkId > 0);
-		compoResumable[parent.forkId - 1] = parent.prong;
+		if (parent.forkId > 0)
+			compoResumable[parent.forkId - 1] = parent.prong;
 	}
 }
 
